@@ -107,6 +107,34 @@ def check_case(ctx, cs):
                 ok, got = _try(ctx, site, tg + (["order>degree"] if order > min(sh["deg"]) else []), small, lambda: obj2.derivatives(*prm, order=order))
                 if ok:
                     check_table(ctx, site, tg, small, got, o, sh, pd, order)
+        # the same objects after an in-place affine map: derivatives follow the map (no state survives inside the evaluators)
+        if order in (1, 2) and not sh["rat"] and len(o["D"]) > order:
+            from geomdl import operations as _ops
+            dim = len(sh["P"][0])
+            vec = [1.0 + 0.5 * k for k in range(dim)]
+            fresh_alt = build(sh, evaluator=(evaluators.CurveEvaluator2() if pd == 1 else evaluators.SurfaceEvaluator2()))
+            for fam, ob in (("default", build(sh)), ("alternative", fresh_alt)):
+                fsite = cname + ".derivatives" if fam == "default" else "evaluators.%sEvaluator2.derivatives" % KIND[pd].capitalize()
+                try:
+                    ob.derivatives(*prm, order=order)
+                    _ops.translate(ob, vec, inplace=True)
+                    _ops.scale(ob, 2.0, inplace=True)
+                    got2 = ob.derivatives(*prm, order=order)
+                except Exception as e:
+                    ctx.violate(fsite, tg + ["after_affine_map", "raises"], small, {"exception": repr(e)[:200]})
+                    continue
+                def mapped(e, zeroth):
+                    return [2.0 * (float(x) + (v if zeroth else 0.0)) for x, v in zip(frv(e), vec)]
+                okm = True
+                if pd == 1:
+                    for k in range(order + 1):
+                        okm = okm and close_seq(got2[k], mapped(o["D"][k], k == 0), 1e-8)
+                else:
+                    for k in range(order + 1):
+                        for l in range(order + 1 - k):
+                            okm = okm and close_seq(got2[k][l], mapped(o["D"][k][l], k == 0 and l == 0), 1e-8)
+                if not okm:
+                    ctx.violate(fsite, tg + ["after_affine_map"], small, {"got": got2[0] if pd == 1 else got2[0][0]})
         if order == 1:
             D = o["D"]
             # exact first derivatives: from D when present, otherwise from the code's (already checked) table
